@@ -458,3 +458,76 @@ class OpenHistories(_HistoryUnit):
             "a workflow that turns out complete (here: failed on an unreachable join) when resumed has the status, output and errors of the same history without the pause"},
     }
     assumptions = ["BOUNDED: 15 concrete histories on 8 definitions (native run through the public API); every offered action is acknowledged as running at once (P5) unless the history says otherwise"]
+
+
+# ================================================================================================
+# witnesses written by the bug-hunt sub-agents (§9.8), run as they were delivered
+# ================================================================================================
+HUNT = {
+    "F53": ("C02.hunt.succeeded_after_partial_rerun", ["C02", "C17"],
+            "a workflow never reports succeeded while a task failure stays unhandled - also after a rerun of only some of the failed tasks"),
+    "F54": ("C06.hunt.output_newer_value_wins", ["C06"],
+            "the workflow output takes the newer value of a variable over one that another terminal branch merely inherited, whatever the completion order"),
+    "F55": ("C06.hunt.output_follows_terminal_contexts", ["C06", "C04"],
+            "the output reflects what the terminal tasks published, also when the provider rendered it once already when the workflow failed and the documented clean-up task published afterwards"),
+    "F56": ("C18.hunt.retry_sees_what_first_attempt_saw", ["C18", "C13"],
+            "a retried attempt is rendered with the context its record holds: a branch arriving while the task waits for its retry does not change what the retry sees"),
+    "F57": ("C18.hunt.rerun_drops_superseded_successors", ["C18", "C17"],
+            "an explicit rerun does not leave the superseded execution's staged successors behind: the successor runs once, after the rerun execution, on its own record"),
+    "F58": ("C07.hunt.join_held_back_by_rerun", ["C07", "C17"],
+            "a join that was ready but had not started is held back when a branch above it is rerun: it runs once, after the new execution of that branch"),
+    "F59": ("C16.hunt.jinja_dot_key_named_like_method", ["C16", "C19"],
+            "a value under a key named items / keys / values / get reaches the action input and the output through the Jinja dot form, as it does through YAQL"),
+    "F60": ("C14.hunt.retry_command_vs_policy", ["C14", "C13"],
+            "a declared retry policy is not silently replaced by a `do: retry` command of the same task (nor one retry command by another): the graph carries what is declared or the definition is rejected"),
+    "F61": ("C20.hunt.expression_action_with_inline_params", ["C20"],
+            "an action given as an expression followed by inline parameters means the same as the action plus an input mapping"),
+    "F62": ("C20.hunt.inline_numbers_all_spellings", ["C20"],
+            "an inline number in exponent, hex, underscore or leading-dot / plus spelling means what the same token means in the long form (or the parameter is rejected), never a silently truncated prefix"),
+    "F63": ("C20.hunt.inline_bracket_values", ["C20", "C06"],
+            "an inline [..] value ends at its closing bracket: the parameters after it are parsed, and a list of strings is a list as in the long form"),
+    "F64": ("C07.hunt.unreachable_only_when_unreachable", ["C07"],
+            "the unreachable-join error is logged only for a join that can no longer be satisfied: not while an inbound branch is still running when another task fails the workflow"),
+    "F65": ("C11.hunt.retry_expression_error_on_rerun", ["C11", "C17"],
+            "a retry count / delay expression that fails when a rerun re-evaluates it fails the workflow (it does not resume and drop the retry policy)"),
+    "F66": ("C07.hunt.rerun_above_split_same_route", ["C07", "C17"],
+            "a rerun from above a split re-executes on the route of the original execution, so its half-satisfied join on that route is satisfied instead of failing the workflow"),
+    "F67": ("C07.hunt.unreachable_error_withdrawn_by_rerun", ["C07", "C17"],
+            "the unreachable-join error does not outlive the rerun that satisfies the join"),
+    "F68": ("C18.hunt.rerun_record_is_what_ran", ["C18", "C17"],
+            "the record a rerun appends says what the rerun execution ran with: a branch arriving before the rerun starts is reflected in the record, not only in the staged entry"),
+}
+
+
+class HuntWitnesses(Unit):
+    bounded = True
+    name = "H.hunt_witnesses"
+    functions = ["orquesta.conducting.WorkflowConductor (public API)", "orquesta.specs.native.v1.models (public API)",
+                 "orquesta.expressions (public API)", "orquesta.utils.parameters.parse_inline_params"]
+    obligations = {name: {"props": props, "text": text} for (name, props, text) in HUNT.values()}
+    assumptions = ["BOUNDED: one concrete demonstration per obligation, written by an independent sub-agent from the property text alone, run natively in a fresh interpreter against the tree under check (exit 0 = the clause holds on that demonstration)"]
+    trusted = ["CPython", "yaql", "jinja2", "the sub-agents' scripts (findings/hunt/open_F*.py), kept as delivered"]
+
+    def splits(self, tier):
+        return sorted(HUNT)
+
+    def run_split(self, ctx, split):
+        import os, subprocess, sys
+        import orquesta
+        root = os.path.dirname(os.path.dirname(os.path.abspath(orquesta.__file__)))
+        verif = os.path.dirname(os.path.dirname(os.path.abspath(__file__)))
+        script = os.path.join(verif, "findings", "hunt", "open_%s.py" % split)
+        name = HUNT[split][0]
+
+        def thunk(e):
+            env = dict(os.environ, VERIF_REPO=root, PYTHONPATH=root, PYTHONHASHSEED="0")
+            r = subprocess.run([sys.executable, script], cwd=root, env=env, capture_output=True, text=True, timeout=300)
+            tail = (r.stdout + r.stderr).strip().splitlines()[-3:]
+            ok = r.returncode == 0
+            if r.returncode not in (0, 1):
+                raise RuntimeError("witness %s crashed (exit %d): %s" % (split, r.returncode, tail))
+            ctx.oblige(name, ok, {"history": "hunt/%s" % split}, {"history": "hunt/%s" % split, "script": "findings/hunt/open_%s.py" % split,
+                                                                  "exit": r.returncode, "tail": tail})
+            ctx.canary()
+        ctx.eng.explore(thunk)
+        ctx.bounded.append({"unit": self.name, "bound": "one demonstration (%s)" % split})
